@@ -7,7 +7,7 @@
 From Coq Require Import String.
 Require Import OV.Base.Bytes OV.Base.PyInt OV.Base.Str OV.Base.Regex OV.Base.C04_Tmpl.
 Require Import OV.Gen.C04_Sanitize OV.Gen.C04_Concrete OV.Model.C04 OV.Model.C04_Spec OV.Model.C04_Sweep.
-Require Import OV.Proofs.C04_Regex OV.Proofs.C04 OV.Proofs.C04_Render OV.Proofs.C04_Bounded OV.Proofs.C04_Refute.
+Require Import OV.Proofs.C04_Regex OV.Proofs.C04 OV.Proofs.C04_Render OV.Proofs.C04_Bounded OV.Proofs.C04_Refute OV.Proofs.C04_Multi.
 Open Scope N_scope.
 
 (* 1. no key of the documented list has been dropped; every generated key is non-empty over [a-z_] *)
@@ -204,6 +204,18 @@ Print Assumptions C04_idempotent_bounded.
 Theorem C04_family_size : N.of_nat (length family_quick) = 6248 /\ (exists c, In c family_quick /\ in_zone (case_msg c) = false).
 Proof. exact family_nonvacuous. Qed.
 Print Assumptions C04_family_size.
+
+(* 5b. BOUNDED: four secrets under the same key and rendering in one message (4 keys x 12 renderings; 36 of the 48
+       messages lie outside the zones): every one of them is replaced — a substitution that stops after a fixed
+       number of matches would fail here *)
+Theorem C04_many_secrets_bounded : forall c, In c family_multi -> in_zone (fst c) = false ->
+  mask_password (fst c) (snd (snd c)) = fst (snd c) /\ mask_password (fst (snd c)) (snd (snd c)) = fst (snd c).
+Proof. exact many_secrets_bounded. Qed.
+Print Assumptions C04_many_secrets_bounded.
+Theorem C04_many_secrets_size : N.of_nat (length family_multi) = 48 /\
+  N.of_nat (length (filter (fun c => negb (in_zone (fst c))) family_multi)) = 36.
+Proof. exact family_multi_nonvacuous. Qed.
+Print Assumptions C04_many_secrets_size.
 
 (* 6. the full statement (two secrets in neutral text) and its refutation by the wildcard pattern (K12) *)
 Definition C04_full_statement : Prop := full_statement.   (* Proofs/C04_Refute.v: two supported renderings in neutral text *)
